@@ -127,6 +127,22 @@ CLAIMED["C09"] = {
     "technique": "stateful property-based testing (history interpreter driven by Hypothesis draws) with a NumPy model invariant",
 }
 
+CLAIMED["C24"] = {
+    "text": "Hypothesis-generated slice/rechunk chains (unit, stepped, negative steps, ints, nested through rechunk / simplify() / transposes) over from_array of a recording non-NumPy source with drawn storage grid (.chunks/.shards/adapter chains), lock, getter (default, 4-argument, documented 2-argument), fancy, asarray, inline_array; plus small ndarrays and (thorough) a 72 MB ndarray kept above the eager-copy limit. Outputs must equal NumPy indexing of the source, every logged read must lie within the source's bounds, requested elements must cover what the output needs, and for pushable slice chains be a subset of what the unsliced prefix requests. " + EXPL,
+    "note": "Requests are observed through the source's own __getitem__ log; the subset relation is asserted only for unit-step/int chains with non-empty results (stepped/newaxis/empty selections legitimately read whole blocks).",
+    "technique": "property-based testing with recording sources: NumPy reference + invariant over logged reads + metamorphic subset relation",
+}
+CLAIMED["C28"] = {
+    "text": "Hypothesis-generated data-dependent selections (13 producers: dask/NumPy masks, row masks, nonzero, argwhere, flatnonzero, unique variants, compress, extract, one-argument where) over small chunked arrays with empty and fully selected blocks; compute_chunk_sizes() must yield exactly the executed block shapes (own executor and the harness' per-block selection counts) and NumPy's values; one of 35 follow-on operations is applied before resolving (must raise or equal NumPy; raise/succeed split reported per operation) and after (must equal NumPy). " + EXPL,
+    "note": "NumPy is the reference; ten listed open findings (wrong results on still-unknown sizes; zero-length chunks mishandled after resolving) are excluded by case-level predicates and counted.",
+    "technique": "property-based testing: NumPy reference + 'raises or equals' classification",
+}
+CLAIMED["C29"] = {
+    "text": PROG + " over recording non-NumPy sources with spying map_blocks/blockwise functions; after building, a Hypothesis-drawn sequence of metadata accessors (every node's metadata incl. _meta and transfer_bytes), repr/html, tokenize, pickle, simplify, optimize, lower, graph construction and explain is applied; until execution starts no source may be asked for a non-empty selection or converted with __array__, and no user block function may be called on a non-empty block; afterwards compute equals NumPy. " + EXPL,
+    "note": "NumPy sources are exempt (the property says non-NumPy); a user function called by meta inference on a 0-d meta is a class, not a failure (no empty 0-d array exists); three listed open findings excluded by predicates.",
+    "technique": "property-based testing with recording sources and spy functions: invariant over the pre-execution history",
+}
+
 NOT_APPLICABLE = {
     "C22": "native Rust extension cannot be built offline (pyo3 0.29 and other crates are absent from the offline cargo registry; no prebuilt .so), so no native layer can be instantiated to generate inputs against; see DESIGN.md section 4 C22",
 }
